@@ -8,6 +8,9 @@ import metamorph as M
 
 PROVED = "consistent renamings inside the proved class (same length, same naming class, injective)"
 MACRO = "upper-case macro names renamed to upper-case names with another number of capitals (outside the proved class)"
+ADV = ("one name of a fixed role renamed to a spelling derived from a reviewed special spelling or a keyword "
+       "(substring, one-character extension, case variant; inside the proved class)")
+ADV_FILE = "one name of a generated file renamed to such a derived spelling (inside the proved class)"
 KIND_DIAG = "rename-changes-diagnostics"
 KIND_LEX = "lexer-rename-changes-tokens"
 KIND_MACRO = "c18-macro-capitals-count"
@@ -27,7 +30,7 @@ def evaluate(name, src, src2, mapping, stream, base=None):
     out = []
     d = M.compare(base, impl.analyse(src2, name))
     if d is not None:
-        out.append((KIND_DIAG if stream == PROVED else KIND_MACRO, d))
+        out.append((KIND_MACRO if stream == MACRO else KIND_DIAG, d))
     ld = M.lex_compare(src, src2, name, mapping=mapping)
     if ld is not None:
         out.append((KIND_LEX, ld))
@@ -35,7 +38,7 @@ def evaluate(name, src, src2, mapping, stream, base=None):
 
 
 def _work(args):
-    i, fseed, nren, nmacro = args
+    i, fseed, nren, nmacro, nadv = args
     stats = {}
     name, src, edited, rnd = M.file_from_seed(fseed, i, i % 4 >= 2, stats)     # half of the files carry comments too
     spoiled = False
@@ -43,7 +46,7 @@ def _work(args):
         sp = M.spoil_names(rnd, name, src)
         if sp is not None:
             src, spoiled = sp, True
-    res = {"n": {PROVED: [0, 0], MACRO: [0, 0]}, "viol": [], "hist": {}, "obs": [], "samples": [], "skipped": 0}
+    res = {"n": {PROVED: [0, 0], MACRO: [0, 0], ADV_FILE: [0, 0]}, "viol": [], "hist": {}, "obs": [], "samples": [], "skipped": 0}
     h = res["hist"]
 
     def bump(k, n=1):
@@ -64,10 +67,25 @@ def _work(args):
     names = sorted(set(t[0] for t in toks))
     bump("distinct identifier spellings", len(names))
     bump("fixed spellings (special / guard)", sum(1 for v in names if M.fixed_name(v, guard)))
-    jobs = [(PROVED, None) for _ in range(nren)] + [(MACRO, None) for _ in range(nmacro)]
-    for k, (stream, _) in enumerate(jobs):
+    movable = [v for v in names if not M.fixed_name(v, guard)]
+    rnd.shuffle(movable)
+    jobs = ([(PROVED, None) for _ in range(nren)] + [(MACRO, None) for _ in range(nmacro)]
+            + [(ADV_FILE, movable[j % len(movable)]) for j in range(nadv if movable else 0)])
+    for k, (stream, which) in enumerate(jobs):
         st = {}
-        if stream == PROVED:
+        if stream == ADV_FILE:
+            mapping = M.adversarial_single(rnd, names, guard, which)
+            if mapping is None:
+                bump("derived-spelling renamings of a file name skipped (no derived spelling of the name's class)")
+                continue
+            pairs = sorted(mapping.items())
+            if not M.rename_ok(pairs, guard):
+                raise AssertionError("adversarial_single left the admissible class: %r" % (pairs,))
+            c = M.name_class(which)
+            bump("derived-spelling renaming of a file name of class: " + ("prefix " + c[3] if c[3] else "upper-case"
+                 if c[1] and not c[2] else "lower-case" if not c[1] else "mixed case")
+                 + (", base file with diagnostics" if base["diags"] else ", clean base file"))
+        elif stream == PROVED:
             mode = ["all", "all", "some", "one", "swap", "all"][k % 6]
             mapping = M.random_renaming(rnd, names, guard, mode=mode, stats=st)
             pairs = sorted(mapping.items())
@@ -87,6 +105,8 @@ def _work(args):
             bump("renaming mode " + mode)
             if any(b in M.NEAR_SET for _, b in changed):
                 bump("renamings using a near-keyword / near-special name")
+            if any(b in M.ADV_SET for _, b in changed):
+                bump("renamings using a spelling derived from a special spelling / keyword (substring, extension, case)")
             if any(b in dict(pairs) and a != b for a, b in changed):
                 bump("renamings that permute names of the file (a new name is another old name)")
             if any(a == "main" for a, _ in changed):
@@ -103,6 +123,51 @@ def _work(args):
         for kind, d in diffs:
             res["viol"].append((kind, {"name": name, "src": src, "src2": src2, "mapping": {a: b for a, b in changed},
                                        "stream": stream, "difference": d, "guard": guard}))
+    return res
+
+
+def _adv_work(cases):
+    """Fixed-role hosts: each case renames exactly one identifier (of a known role) to a derived spelling."""
+    res = {"n": [0, 0], "viol": [], "hist": {}, "obs": [], "samples": []}
+    h = res["hist"]
+
+    def bump(k, n=1):
+        h[k] = h.get(k, 0) + n
+    for role, kind, spelling, target in cases:
+        host = M.adversarial_host(role, target)
+        if host is None:
+            bump("derived spellings without a distinct neutral spelling of the same class (skipped: _, __, e_, e__)")
+            continue
+        name, src, old, new = host
+        toks = M.identifiers(src, name)
+        base = impl.analyse(src, name)
+        if toks is None or base["kind"] != "ok":
+            raise AssertionError("host program not analysable: %r" % (src,))
+        guard = M.guard_of(name)
+        names = sorted(set(t[0] for t in toks))
+        mapping = {v: v for v in names}
+        mapping[old] = new
+        pairs = sorted(mapping.items())
+        if old not in names or not M.rename_ok(pairs, guard):
+            raise AssertionError("derived-spelling case outside the admissible class: %r -> %r" % (old, new))
+        src2 = M.apply_renaming(src, toks, mapping)
+        _, diffs = evaluate(name, src, src2, mapping, ADV, base)
+        res["n"][0] += 1
+        res["n"][1] += 1
+        bump("role: " + role)
+        bump("derived spelling: %s of a %s" % (kind, "reviewed special spelling" if spelling in M.REVIEWED_SPECIALS
+                                                else "keyword"))
+        bump("host program " + ("with diagnostics (violating)" if base["diags"] and
+                                 [d[0] for d in base["diags"]] != ["GLOBAL_VAR_DETECTED"] else "conforming"))
+        if len(res["obs"]) < 1:
+            res["obs"].append((guard, [list(p) for p in pairs]))
+        if len(res["samples"]) < 1:
+            res["samples"].append({"file": name, "stream": ADV, "role": role, "derived_from": spelling, "how": kind,
+                                   "renamed": [[old, new]], "base_diagnostics": len(base["diags"])})
+        for k, d in diffs:
+            res["viol"].append((k, {"name": name, "src": src, "src2": src2, "mapping": {old: new}, "stream": ADV,
+                                    "role": role, "derived_from": spelling, "how": kind, "difference": d,
+                                    "guard": guard}))
     return res
 
 
@@ -136,8 +201,11 @@ def run(run, tier, seed, replay=None):
                     found |= run.violation(kind, dict(d, difference=diff))
             run.sample({"replayed": d["name"], "mapping": d["mapping"]})
     else:
-        nfiles, nren, nmacro = (40, 6, 2) if tier == "quick" else (400, 20, 4)
-        jobs = [(i, rnd.getrandbits(64), nren, nmacro) for i in range(nfiles)]
+        nfiles, nren, nmacro, nadv = (40, 6, 2, 6) if tier == "quick" else (400, 20, 4, 20)
+        jobs = [(i, rnd.getrandbits(64), nren, nmacro, nadv) for i in range(nfiles)]
+        acases = M.adversarial_cases(rnd, tier)
+        rnd.shuffle(acases)
+        abatches = [acases[j:j + 50] for j in range(0, len(acases), 50)]
         skipped = 0
         viol = []
         with mp.Pool(common.NPROC, initializer=_init) as pool:
@@ -153,6 +221,19 @@ def run(run, tier, seed, replay=None):
                         obs.append(o)
                 for s in res["samples"]:
                     run.sample(s, cap=5)
+            nsamp = 0
+            for res in pool.imap(_adv_work, abatches, chunksize=1):
+                if res["n"][0]:
+                    run.count(ADV, res["n"][0], res["n"][1])
+                M.merge(hist, res["hist"])
+                viol += res["viol"]
+                for o in res["obs"]:
+                    if len(obs) < 380:
+                        obs.append(o)
+                for s in res["samples"]:
+                    if nsamp < 3:
+                        run.sample(s, cap=8)
+                        nsamp += 1
         hist["files not analysable (outside the quantifier)"] = skipped
         viol.sort(key=lambda kv: (len(kv[1]["mapping"]), len(kv[1]["src"])))
         for kind, data in viol[:40]:
@@ -178,7 +259,15 @@ def run(run, tier, seed, replay=None):
                       "complete diagnostic lists (code, text, level, every highlight's line, column, length, hint) must be "
                       "equal, and the two token streams must agree in type, line, column and raw span with values related by "
                       "the map; non-trivial = renamings that change at least one name.  Second stream (reported apart): "
-                      "upper-case macro names to upper-case names with another number of capitals",
+                      "upper-case macro names to upper-case names with another number of capitals.  Adversarial streams "
+                      "(inside the proved class, same comparison): spellings derived from every reviewed special spelling and "
+                      "every keyword - each contiguous substring, each extension by one identifier character in front or "
+                      "behind, case variants - none of them special to the tool; (a) in small host programs exactly one "
+                      "identifier of a fixed role (global not named g_*, g_* global, local, parameter, function name, struct "
+                      "tag, typedef name, macro name; the derived spelling behind the role's prefix) is renamed from a "
+                      "neutral spelling of the same class to the derived one (quick: every substring of every special "
+                      "spelling in every role, samples of the rest); (b) one name of a generated conforming / violating "
+                      "file is renamed to a derived spelling of its class",
                       extra={"histogram": hist, "reviewed_specials": M.REVIEWED_SPECIALS},
                       assumptions=["file-name-derived guard symbols, keywords of norminette.lexer.dictionary.keywords and the "
                                    "reviewed special spellings are never renamed to or from (the property's own exclusion)",
